@@ -52,7 +52,10 @@ func (h *NTLMAuth) Authenticate(message *auth.NtlmRequest) (*auth.NtlmResponse, 
 	c := h.getContext(message.Session)
 	err := c.Authenticate(message.NtlmMessage, r)
 
-	if err != nil || r.Authenticated {
+	// an exchange is over once a message was answered without a new challenge, whatever
+	// the outcome: never reuse the server session (the NTLM library keeps the response
+	// key of the first authenticate attempt in it) for another authenticate message
+	if err != nil || r.Authenticated || r.NtlmMessage == "" {
 		h.removeContext(message.Session)
 	}
 
